@@ -8,6 +8,7 @@ import CallbagModel.Closed.Prog
 import CallbagModel.Closed.Prog2
 import CallbagModel.Closed.ProgTerm
 import CallbagModel.Inv.ConcatN
+import CallbagModel.Closed.Prog3
 /-!
 # C06 — iterable programming: pull pipelines compute the corresponding list function
 
@@ -242,5 +243,19 @@ theorem C06_nary_concat (As : List Closed.AnyM) (hne : 0 < As.length) (ys : Nat 
       BasicSafe s ∧ applied s.tr <+: ConcatN.catN ys As.length ∧
       (s.stack = [] → s.tr ≠ [] → applied s.tr = ConcatN.catN ys As.length) :=
   ConcatN.concatN_correct As hne ys h
+
+/-! ## all of it over one syntax: `Prog3 = src | stage | concat2 | concatN | flatRep`
+
+`Prog3.toM` builds exactly the terms of the driver (binary `concat!`: both slots of the binary machine plugged; three or more members:
+`concatM`).  This is the theorem the C06 comparison stream is run against: every program of the stream that does not use the `tri`
+family is `(toProg3 text).toM`. -/
+
+theorem C06_every_program_nary (p : Closed.Prog3) (hok : p.ok) :
+    (∀ s, SReach (Closed.thenM p.toM Closed.forEachM).M s →
+      BasicSafe s ∧ applied s.tr <+: listSem p.toPipe ∧ (s.stack = [] → s.tr ≠ [] → applied s.tr = listSem p.toPipe)) ∧
+    (∀ s, SReach (Closed.thenM p.toM Closed.forEachM).M s → Safe s ∧ SafeFor 4 s ∧ SafeFor 5 s) ∧
+    (∀ s, SReach (Closed.thenM p.toM Closed.forEachM).M s → ∃ n, EnvTurn (advance (Closed.thenM p.toM Closed.forEachM).M n s)) ∧
+    (∃ s, SReach (Closed.thenM p.toM Closed.forEachM).M s ∧ s.stack = [] ∧ s.tr ≠ [] ∧ applied s.tr = listSem p.toPipe) :=
+  ⟨Closed.prog3_correct p hok, Closed.prog3_safe p hok, Closed.prog3_progress p hok, Closed.prog3_nonvacuous p hok⟩
 
 end Cb.Thm
